@@ -114,3 +114,38 @@ pub mod csm {
         }
     }
 }
+
+/// Address-to-space resolution: a private `SFTSpaceMap`, private `Map64` / `Map32` descriptor maps.
+pub mod resolve {
+    pub use crate::policy::sft_map::verif_hooks::SpaceMap;
+    use crate::util::heap::layout::verif_private::{Map32, Map64};
+    use crate::util::heap::layout::VMMap;
+    use crate::util::Address;
+
+    /// A private VM map: `Map64::new()` or `Map32::new()`.
+    pub struct VmMap(Box<dyn VMMap>);
+
+    impl VmMap {
+        /// `Map64::new()`
+        pub fn new64() -> Self {
+            VmMap(Box::new(Map64::new()))
+        }
+        /// `Map32::new()`
+        pub fn new32() -> Self {
+            VmMap(Box::new(Map32::new()))
+        }
+        /// `insert(start, extent, descriptor)` with a raw descriptor.
+        pub fn insert(&self, start: Address, extent: usize, raw_descriptor: usize) {
+            self.0.insert(start, extent, super::desc::from_raw(raw_descriptor))
+        }
+        /// `get_descriptor_for_address(addr)`, raw bits (may panic: that is what C31 probes).
+        pub fn get_descriptor_for_address(&self, addr: Address) -> usize {
+            super::desc::raw(self.0.get_descriptor_for_address(addr))
+        }
+    }
+
+    /// The process-global `VM_MAP.get_descriptor_for_address(addr)`, raw bits.
+    pub fn global_descriptor_for_address(addr: Address) -> usize {
+        super::desc::raw(crate::mmtk::VM_MAP.get_descriptor_for_address(addr))
+    }
+}
